@@ -46,6 +46,7 @@ func twins(r *rand.Rand, id string) Case {
 		// the reversed order and the single file are analysed in fresh processes, the rest in this one
 		c.Runs = [][]int{all, rev, {all[len(all)-1]}, all}
 		c.Fresh = []bool{false, true, true, false}
+		c.Prelude = r.Intn(2) == 0
 	}
 	return c
 }
@@ -140,6 +141,7 @@ func gen(seed int64, n int, tier string) []interface{} {
 			}
 		}
 		c.LongLine = r.Intn(12) == 0
+		c.Prelude = len(c.Runs) > 0 && r.Intn(2) == 0
 		out = append(out, c)
 	}
 	return out
